@@ -5,7 +5,7 @@
  "bound": "real pytest subprocess sessions on 1 (quick) / 3 (thorough) generated 4-category template projects: 16 category subsets x {flags, +report, +short-report, review answers, review+flags, env var, pyproject, CI, xdist} (quick: ~35 of these) + single-test (-k) sessions per failing operation; external-storage histories of 7 steps + no-trim probes for 2 (quick) / 6 (thorough) data/suffix/hash-length/storage-dir variants",
  "input": {
   "template": "T0",
-  "mode": "none",
+  "mode": "xdist-env",
   "F": [
    "create",
    "fix",
@@ -13,18 +13,16 @@
    "update"
   ],
   "args": [
-   "--inline-snapshot=create,fix,trim,update"
+   "-n",
+   "2"
   ],
-  "env": {},
+  "env": {
+   "INLINE_SNAPSHOT_DEFAULT_FLAGS": "create,fix,trim,update"
+  },
   "stdin": "",
-  "approved": [
-   "create",
-   "fix",
-   "trim",
-   "update"
-  ]
+  "approved": []
  },
- "detail": "C04: test_x_cls.py: modified although every test in it is marked xfail\ntest_x_mod.py: modified although every test in it is marked xfail\n--- session output (tail)\nPASSED test_t.py::test_mixed\nPASSED test_t.py::test_loop_fix\nPASSED test_t.py::test_second_wrong\nXFAIL test_x.py::test_x_create\nXFAIL test_x.py::test_x_fix\nXFAIL test_x_cls.py::TestX::test_x_cls_create\nXFAIL test_x_cls.py::TestX::test_x_cls_fix\nXFAIL test_x_mod.py::test_x_mod_create\nXFAIL test_x_mod.py::test_x_mod_fix\nXPASS test_x_cls.py::TestX::test_x_cls_create\nXPASS test_x_cls.py::TestX::test_x_cls_fix\nXPASS test_x_mod.py::test_x_mod_create\nXPASS test_x_mod.py::test_x_mod_fix\nERROR test_t.py::test_create - Failed: your snapshot is missing one value.\nERROR test_t.py::test_fix - Failed: some snapshots in this test have incorrec...\nERROR test_t.py::test_in_create - Failed: your snapshot is missing one value.\nERROR test_t.py::test_in_fix - Failed: some snapshots in this test have incor...\nERROR test_t.py::test_ge_fix - Failed: some snapshots in this test have incor...\nERROR test_t.py::test_le_fix - Failed: some snapshots in this test have incor...\nERROR test_t.py::test_key_create - Failed: your snapshot is missing 2 values.\nERROR test_t.py::test_key_fix - Failed: some snapshots in this test have inco...\nERROR test_t.py::test_mixed - Failed: some snapshots in this test have incorr...\nERROR test_t.py::test_loop_fix - Failed: some snapshots in this test have inc...\nERROR test_t.py::test_second_wrong - Failed: some snapshots in this test have...\n============= 18 passed, 6 xfailed, 4 xpassed, 11 errors in 6.06s =============="
+ "detail": "C04: nothing approved but: M test_t.py\n--- session output (tail)\nPASSED test_t.py::test_ge_trim\nPASSED test_t.py::test_key_create\nPASSED test_t.py::test_key_fix\nPASSED test_t.py::test_key_trim\nPASSED test_t.py::test_second_wrong\nPASSED test_t.py::test_mixed\nPASSED test_t.py::test_loop_fix\nXFAIL test_x.py::test_x_create\nXFAIL test_x.py::test_x_fix\nXFAIL test_x_mod.py::test_x_mod_create\nXFAIL test_x_cls.py::TestX::test_x_cls_create\nXFAIL test_x_mod.py::test_x_mod_fix\nXFAIL test_x_cls.py::TestX::test_x_cls_fix\nERROR test_t.py::test_create - Failed: your snapshot is missing one value.\nERROR test_t.py::test_fix - Failed: some snapshots in this test have incorrec...\nERROR test_t.py::test_in_create - Failed: your snapshot is missing one value.\nERROR test_t.py::test_ge_fix - Failed: some snapshots in this test have incor...\nERROR test_t.py::test_le_fix - Failed: some snapshots in this test have incor...\nERROR test_t.py::test_in_fix - Failed: some snapshots in this test have incor...\nERROR test_t.py::test_key_create - Failed: your snapshot is missing 2 values.\nERROR test_t.py::test_key_fix - Failed: some snapshots in this test have inco...\nERROR test_t.py::test_second_wrong - Failed: some snapshots in this test have...\nERROR test_t.py::test_mixed - Failed: some snapshots in this test have incorr...\nERROR test_t.py::test_loop_fix - Failed: some snapshots in this test have inc...\n================== 18 passed, 6 xfailed, 11 errors in 10.81s ==================="
 }
 """
 
@@ -99,9 +97,9 @@ os.mkdir(PROJ)
 try:
     FILES = {'test_t.py': 'from inline_snapshot import snapshot\n\n\ndef test_create():\n    assert 59 == snapshot()\n\n\ndef test_fix():\n    assert 59 == snapshot(57)\n\n\ndef test_trim():\n    assert 59 <= snapshot(61)\n\n\ndef test_update():\n    assert "q" == snapshot(\'\'\'q\'\'\')\n\n\ndef test_ok():\n    assert [1, 59] == snapshot([1, 59])\n\n\ndef test_in_create():\n    assert 59 in snapshot()\n\n\ndef test_in_fix():\n    assert 59 in snapshot([57])\n\n\ndef test_in_trim():\n    assert 59 in snapshot([59, 61])\n\n\ndef test_ge_fix():\n    assert 59 >= snapshot(61)\n\n\ndef test_le_fix():\n    assert 59 <= snapshot(57)\n\n\ndef test_ge_trim():\n    assert 59 >= snapshot(57)\n\n\ndef test_key_create():\n    s = snapshot()\n    assert 59 == s["k"]\n\n\ndef test_key_fix():\n    s = snapshot({"k": 57})\n    assert 59 == s["k"]\n\n\ndef test_key_trim():\n    s = snapshot({"k": 59, "j": 2})\n    assert 59 == s["k"]\n\n\ndef test_mixed():\n    assert [59, "q", 3] == snapshot([61, \'\'\'q\'\'\', 3])\n\n\ndef test_loop_fix():\n    for _ in range(2):\n        assert 59 == snapshot(60)\n\n\ndef test_second_wrong():\n    assert 1 == snapshot(1)\n    assert 59 == snapshot(61)\n', 'test_clean.py': 'from inline_snapshot import snapshot\n\n\ndef test_c():\n    assert 59 == snapshot(59)\n    assert 59 <= snapshot(59)\n    assert 59 in snapshot([59])\n', 'test_x.py': 'import pytest\nfrom inline_snapshot import snapshot\n\n\n@pytest.mark.xfail\ndef test_x_create():\n    assert 59 == snapshot()\n\n\n@pytest.mark.xfail\ndef test_x_fix():\n    assert 59 == snapshot(60)\n', 'test_x_cls.py': 'import pytest\nfrom inline_snapshot import snapshot\n\n\n@pytest.mark.xfail\nclass TestX:\n    def test_x_cls_create(self):\n        assert 59 == snapshot()\n\n    def test_x_cls_fix(self):\n        assert 59 == snapshot(60)\n', 'test_x_mod.py': 'import pytest\nfrom inline_snapshot import snapshot\n\npytestmark = pytest.mark.xfail\n\n\ndef test_x_mod_create():\n    assert 59 == snapshot()\n\n\ndef test_x_mod_fix():\n    assert 59 == snapshot(60)\n', 'pyproject.toml': '[tool.inline-snapshot]\n'}
     PLAIN = {'test_t.py': 'from inline_snapshot import snapshot\n\n\ndef test_create():\n    assert 59 == snapshot()\n\n\ndef test_fix():\n    assert 59 == snapshot(57)\n\n\ndef test_trim():\n    assert 59 <= snapshot(61)\n\n\ndef test_update():\n    assert "q" == snapshot(\'\'\'q\'\'\')\n\n\ndef test_ok():\n    assert [1, 59] == snapshot([1, 59])\n\n\ndef test_in_create():\n    assert 59 in snapshot()\n\n\ndef test_in_fix():\n    assert 59 in snapshot([57])\n\n\ndef test_in_trim():\n    assert 59 in snapshot([59, 61])\n\n\ndef test_ge_fix():\n    assert 59 >= snapshot(61)\n\n\ndef test_le_fix():\n    assert 59 <= snapshot(57)\n\n\ndef test_ge_trim():\n    assert 59 >= snapshot(57)\n\n\ndef test_key_create():\n    s = snapshot()\n    assert 59 == s["k"]\n\n\ndef test_key_fix():\n    s = snapshot({"k": 57})\n    assert 59 == s["k"]\n\n\ndef test_key_trim():\n    s = snapshot({"k": 59, "j": 2})\n    assert 59 == s["k"]\n\n\ndef test_mixed():\n    assert [59, "q", 3] == snapshot([61, \'\'\'q\'\'\', 3])\n\n\ndef test_loop_fix():\n    for _ in range(2):\n        assert 59 == snapshot(60)\n\n\ndef test_second_wrong():\n    assert 1 == snapshot(1)\n    assert 59 == snapshot(61)\n', 'test_clean.py': 'from inline_snapshot import snapshot\n\n\ndef test_c():\n    assert 59 == snapshot(59)\n    assert 59 <= snapshot(59)\n    assert 59 in snapshot([59])\n', 'test_x.py': 'import pytest\nfrom inline_snapshot import snapshot\n\n\n@pytest.mark.xfail\ndef test_x_create():\n    assert 59 == snapshot()\n\n\n@pytest.mark.xfail\ndef test_x_fix():\n    assert 59 == snapshot(60)\n', 'test_x_cls.py': 'import pytest\nfrom inline_snapshot import snapshot\n\n\n@pytest.mark.xfail\nclass TestX:\n    def test_x_cls_create(self):\n        assert 59 == snapshot()\n\n    def test_x_cls_fix(self):\n        assert 59 == snapshot(60)\n', 'test_x_mod.py': 'import pytest\nfrom inline_snapshot import snapshot\n\npytestmark = pytest.mark.xfail\n\n\ndef test_x_mod_create():\n    assert 59 == snapshot()\n\n\ndef test_x_mod_fix():\n    assert 59 == snapshot(60)\n', 'pyproject.toml': '[tool.inline-snapshot]\n'}
-    APPROVED = ['create', 'fix', 'trim', 'update']
+    APPROVED = []
     write(PROJ, FILES)
-    r = session(PROJ, ['--inline-snapshot=create,fix,trim,update'])
+    r = session(PROJ, ['-n', '2'], env={'INLINE_SNAPSHOT_DEFAULT_FLAGS': 'create,fix,trim,update'})
     print(r['out'][-3000:])
     if not APPROVED:
         assert r['after'] == r['before'], sorted(k for k in set(r['after']) | set(r['before']) if r['after'].get(k) != r['before'].get(k))
